@@ -702,6 +702,16 @@ def cloopLoop (run : St → Res) (ls : CLoopSpec) : Nat → Int → Int → Nat 
           | .abort st => ⟨n+1, st, true⟩
           | _ => ⟨n+1, { rb.st with c := { rb.st.c with err := some .wrongLoopOp } }, true⟩
 
+/-- The children of a for-else branch, one after the other: `if ctx.Err = tpl.writeNode(w, ch, ctx); ctx.Err != nil
+    { break }` — the result of EVERY child is assigned to `ctx.Err`, so each successful child clears a stale error
+    before the next one runs; the first failing child ends the branch. -/
+def elseSeq : List (St → Res) → St → Res
+  | [], s => ok s
+  | r :: rest, s =>
+    match (r s).err with
+    | some _ => r s
+    | none => elseSeq rest { (r s).st with c := { (r s).st.c with err := none } }
+
 /-- The for-else branch: `if ctx.Err = tpl.writeNode(w, ch, ctx); ctx.Err != nil { break }` — the result
     of every child is ASSIGNED to `ctx.Err`, so a successful non-empty branch clears a stale error. -/
 def elseRun (run : St → Res) (nonEmpty : Bool) (s : St) : Res :=
@@ -849,10 +859,10 @@ def writeNode (reg : Registry) : Nat → Node → St → Res
     | .default_ child => writeSeq reg f child s
     | .cloop ls child =>
       let (body, els) := loopParts child
-      loopNode (cloopWith (fun st => writeSeq reg f body st) (els.map (fun e st => elseRun (fun st' => writeSeq reg f e st') (!e.isEmpty) st)) f ls) s
+      loopNode (cloopWith (fun st => writeSeq reg f body st) (els.map (fun e st => elseRun (elseSeq (e.map (fun n st' => writeNode reg f n st'))) (!e.isEmpty) st)) f ls) s
     | .rloop ls child =>
       let (body, els) := loopParts child
-      loopNode (rloopWith (fun st => writeSeq reg f body st) (els.map (fun e st => elseRun (fun st' => writeSeq reg f e st') (!e.isEmpty) st)) ls) s
+      loopNode (rloopWith (fun st => writeSeq reg f body st) (els.map (fun e st => elseRun (elseSeq (e.map (fun n st' => writeNode reg f n st'))) (!e.isEmpty) st)) ls) s
     | .brk d => fail { s with c := { s.c with brkD := max s.c.brkD (max d 1) } } .breakLoop
     | .lbrk d => ok { s with c := { s.c with brkD := max s.c.brkD (max d 1) } }
     | .cont => fail s .contLoop
